@@ -698,6 +698,46 @@ fn main() {
     }
     res.cov("client_resets_before_served_cases", reset_early_cases);
 
+    // ---- family: source ports of every range (a root client may bind a reserved port; the ephemeral range is no contract):
+    // attributed connection, served, closed; its record is gone and a direct connection from the same port is refused
+    let mut port_range_cases = 0u64;
+    {
+        let hosts = cx.w.hosts.all();
+        let root = AuditRec::to(WS, 0, cx.root_pid, true);
+        for port in [1u16, 600, 1023, 1024, 1025, 32767, 61000, 65535] {
+            cx.w.clear_audit();
+            let cur = cx.w.hosts.cursors();
+            let ask = |c: &mut Client, t: &str| c.send(&build_request("GET", t, &[("Host", b"h")], None, None)).map_err(|e| e.to_string()).and_then(|_| c.read_response(false, Duration::from_secs(10)).map(|m| m.status()));
+            let first = match cx.w.connect(Some(port), Some(&root)) {
+                Ok(mut c) => {
+                    let r = ask(&mut c, "/ports/attributed");
+                    c.close();
+                    r
+                }
+                Err(e) => vcommon::result::machinery(&format!("connect from source port {port}: {e}")),
+            };
+            let _ = cx.sentinel();
+            let left = cx.w.audit_present(port);
+            let second = cx.w.connect(Some(port), None).map_err(|e| e.to_string()).and_then(|mut c| {
+                let r = ask(&mut c, "/ports/direct");
+                c.close();
+                r
+            });
+            port_range_cases += 1;
+            let upstream: usize = hosts.iter().enumerate().map(|(i, h)| h.requests_since(cur[i]).iter().filter(|(_, m)| m.target() == "/ports/direct").count()).sum();
+            if first != Ok(200) || left || second != Ok(421) || upstream != 0 {
+                res.violation(
+                    "record-not-consumed-at-accept:source-port-range",
+                    &format!("source port {port}: the attributed connection got {:?} (want 200); afterwards its record is {}; a direct connection from the same port got {:?} (want 421), {upstream} request(s) upstream", first, if left { "still in the audit map" } else { "gone" }, second),
+                    json!({"family": "source-port-ranges", "port": port}),
+                );
+            }
+            cx.w.clear_audit();
+            let _ = cx.sentinel();
+        }
+    }
+    res.cov("source_port_range_cases", port_range_cases);
+
     // ---- family: the rules a request is judged by are those of its connection's recorded destination, whatever port the
     // request target (absolute-form) names: endpoint X refuses everything (enforce, default deny, no grants), endpoint Y on the
     // same address has no rules
